@@ -474,6 +474,8 @@ class Infimum(Concept):
             For :class:`.Infimum`, this returns **all** properties instead of
             the first contradictory subset of properties.
         """
+        if self._extent:
+            return super().minimal()
         return self._intent.members()
 
 
